@@ -14,7 +14,7 @@ REQUIRED_MONITORS = ["markers@stab_plot(function)", "markers@cluster_plot(functi
                      "markers@pLSCF.plot_stab", "markers@pLSCF.plot_cluster", "curves@FDD.plot_CMIF", "marker-order accepted by mpe"]
 ALL_STATES = ["hide_poles=True", "hide_poles=False", "with covariance error bars", "freqlim given", "step=1", "step=2", "step=3", "more rows than orders", "more orders than rows",
               "empty column", "no stable pole", "nSv=all", "nSv<all"]
-REQUIRED_STATES = ["hide_poles given as a numpy boolean / integer / 0-d array", "nSv=0", "hide_poles=True", "hide_poles=False", "with covariance error bars", "freqlim given", "step=2", "more rows than orders", "more orders than rows", "nSv=all", "nSv<all", "column-major tables",
+REQUIRED_STATES = ["as many spectral lines as singular values (cubic array)", "hide_poles given as a numpy boolean / integer / 0-d array", "nSv=0", "hide_poles=True", "hide_poles=False", "with covariance error bars", "freqlim given", "step=2", "more rows than orders", "more orders than rows", "nSv=all", "nSv<all", "column-major tables",
                    "earlier figures left open", "49 or more pole slots", "several objects of one class and name plotted in one process",
                    "retained poles with a value of exactly zero", "labels stored as bool / int8 / uint8 / int32 / float"]
 RULE = ("random pole / label tables up to 60 orders, non-square, any NaN pattern, labels 0/1, step 1..3 at function level, freqlim, with/without covariance; results "
@@ -217,12 +217,18 @@ def judge_cmif(ctx, tag, sig, ax, S_val, freq, nSv):
             return
 
 
-def run_cmif(ctx, rng):
+def run_cmif(ctx, rng, cube=False):
     import matplotlib.pyplot as plt
     from pyoma2.functions import plot as P_
 
     nch = int(rng.integers(2, 9))
     nf = int(rng.integers(5, 400))
+    if cube:
+        # as many spectral lines as singular values (a very short segment, or a zoomed stretch of the axis): the (n, n, n) array still has the
+        # documented layout [value index, value index, line]
+        nch = int(rng.integers(4, 9))
+        nf = nch
+        ctx.state("as many spectral lines as singular values (cubic array)")
     freq = np.arange(nf) * float(10 ** rng.uniform(-2, 1))
     S = np.sort(10 ** rng.uniform(-6, 3, (nch, nf)), axis=0)[::-1]
     S_val = np.zeros((nch, nch, nf))
@@ -333,4 +339,6 @@ def run_classes(ctx, rng):
 
 def run_case(ctx, case):
     rng = gen.rng_of(case)
+    if case["cls"] == "cmif" and case["k"] % 10 == 3:
+        return run_cmif(ctx, rng, cube=True)
     {"tables": run_tables, "cmif": run_cmif, "classes": run_classes}[case["cls"]](ctx, rng)
